@@ -788,6 +788,21 @@ class C14(EvalProp):
         for B in arrays[:8]:
             elems.append(o_(y=B))
             elems.append(o_(x=B))
+        # homogeneous arrays with repeated elements, kind by kind (a per-kind fast path - sorted strings, integer sets - must
+        # still be set inclusion, not multiset inclusion)
+        import itertools as _it
+        def upto3(K):
+            return [("a",) + t for n in range(0, 4) for t in _it.product(K, repeat=n)]
+        for K in ([S("t1"), S("t2"), S("t3")], [("i", 1), ("i", 2), ("i", 3)]):
+            arrs = upto3(K)
+            for A in arrs:
+                for B in (arrs if self.tier != "quick" else [arrs[i] for i in sorted(self.rng.sample(range(len(arrs)), 14))] + arrs[:4]):
+                    elems.append(o_(x=A, y=B))
+        for K in ([("b", 1), ("b", 0)], [("a", ("i", 1)), ("a", ("i", 2))], [o_(a=("i", 1)), o_(a=("i", 2))], [S(""), S("a"), S("\u00e9")], [f_(0.5), f_(1.5)]):
+            arrs = upto3(K)
+            for A in arrs[:15]:
+                for B in arrs[:15]:
+                    elems.append(o_(x=A, y=B))
         doc = o_(list=("a", ("i", 1), S("a"), ("a", ("i", 1))), elems=("a",) + tuple(elems))
         x = ("argt", ("rel", ("sel", ("name", S("x")))))
         y = ("argt", ("rel", ("sel", ("name", S("y")))))
@@ -1513,7 +1528,7 @@ class C12(PropCheck):
                   "query and document, and every batch again with its operations reversed in another fresh process (per-operation digests "
                   "must agree: what the first-ever use in a process caches is thereby exposed).")
     level_note = "partial: thread schedules and data races are sampled, not proved; Send + Sync of JpQuery is a compile-time assertion of the harness"
-    rule = ("batches of 14 (query string, document) operations incl. match/search pairs over one pattern and names with escapes: entry points "
+    rule = ("batches of 17 (query string, document) operations incl. match/search pairs over one pattern, names with escapes, a deep document under descendant segments and absolute existence tests over documents that disagree; every parsed query is also run on every document of the batch (sequentially and from the threads) and compared with its string there: entry points "
             "compared position by position, 40 permuted and reversed histories, prepared vs re-parsed queries, 16 threads x 60 iterations over "
             "shared Arc<JpQuery>/Arc<Value>, document snapshot; each batch twice in fresh processes (forward / reversed); "
             "non-trivial = every batch; distinct = distinct batches")
@@ -1538,6 +1553,14 @@ class C12(PropCheck):
                 if self.rng.random() < 0.1:
                     text = gen.mutate(self.rng, text)      # invalid queries are part of a history too
                 ops.append((S(text), shared_doc if self.rng.random() < 0.4 else d))
+            # a deep document under descendant segments (a depth counter shared between threads shows up only here), and
+            # absolute existence tests over documents that disagree on them (a memo inside the parsed query shows up only here)
+            deep = nest_doc(self.rng.choice([24, 40, 70]), leaf=o_(a=("i", 1), x=("a", ("i", 1), ("i", 2))))
+            ops.append((S(self.rng.choice(["$..*", "$..a", "$..[0]", "$..x[?@ > 1]", "$[?count(@..*) > 3]"])), deep))
+            ops.append((S(self.rng.choice(["$[?$.x]", "$[?!$.x]", "$[?$.x && @ != 2]", "$[?@ == 1 || $.x]", "$..[?$.x.y]"])),
+                        self.rng.choice([o_(x=o_(y=("i", 1)), a=("i", 1), b=("a", ("i", 1), ("i", 2))), ("a", ("i", 1), ("i", 2), o_(x=("i", 1)))])))
+            ops.append((S(self.rng.choice(["$[?$.x]", "$[?!$.x]", "$[?$[0]]", "$.*[?!$.x.y]"])),
+                        self.rng.choice([o_(a=("i", 1), b=("a", ("i", 1), o_(x=("i", 3)))), o_(x="null", k=("a", ("i", 2)))])))
             pat = self.rng.choice(["b", "a.", "ab|b", "[ab]+", "b*", "x", "a|b"])
             ops.append((S("$[?match(@,'%s')]" % pat), strs))
             ops.append((S("$[?search(@,'%s')]" % pat), strs))
